@@ -6,6 +6,7 @@ import GscribModel.Drv.DirectWrite
 import GscribModel.Drv.Writers
 import GscribModel.Drv.Report
 import GscribModel.Drv.Transform
+import GscribModel.Drv.Format
 /-! Line-protocol driver: `driver <mode>` (or `lake env lean --run Driver.lean <mode>`) reads one
     case/operation per line on stdin and prints exactly one record per line (`bad-op …` for an
     unparsable line).  Each mode lives in `GscribModel/Drv/<Mode>.lean`. -/
@@ -21,4 +22,5 @@ def main (args : List String) : IO UInt32 := do
   | ["writers"] => WritersDrv.main; return 0
   | ["report"] => ReportDrv.main; return 0
   | ["transform"] => TransformDrv.main; return 0
+  | ["format"] => FormatDrv.main; return 0
   | _ => IO.eprintln s!"unknown mode {args}"; return 2
